@@ -33,6 +33,8 @@ CONSTANTS Sources,     \* source SSRCs (32-bit patterns)
           Modes,       \* set of [fixed : BOOLEAN, pinOn : BOOLEAN, strip : BOOLEAN]
           Seq0, Off0,  \* initial_sequence_number / initial_timestamp_offset when fixed
           Pin,         \* initial_output_timestamp when pinOn
+          VideoPts,    \* source payload types that go to the optional video target ({} = no video target)
+          Reinstalls,  \* BOOLEAN: the bridge may be cleared and installed again mid-behaviour
           MaxLen
 
 VARIABLES tbl, mode,
@@ -69,8 +71,8 @@ Init ==
   /\ prev = [s \in Sources |-> NoPrev]
   /\ seen = {}
   /\ hist = <<>>
-  /\ last = [src |-> 0, rule |-> 0, first |-> TRUE, cont |-> "first", outSsrc |-> 0, outPt |-> 0, outSeq |-> 0,
-             outTs |-> 0, dPair |-> 0]
+  /\ last = [kind |-> "init", src |-> 0, rule |-> 0, first |-> TRUE, cont |-> "first", outSsrc |-> 0, outPt |-> 0,
+             outSeq |-> 0, outTs |-> 0, dPair |-> 0]
 
 \* rule_for: exact payload-type match wins, otherwise the catch-all, otherwise none (0)
 RuleIdx(pt) ==
@@ -110,7 +112,9 @@ Forward(src, pt, ts) ==
       first == ~st[src].on
       \* which rule of C19 governs each output field of this packet
       tsRule == IF cls = "cont" THEN "TsPreserve" ELSE "EXT"
-      rec  == [src |-> src, pt |-> pt, ts |-> ts,
+      rec  == [op |-> "fwd", src |-> src, pt |-> pt, ts |-> ts,
+               \* target_for: chosen from the ORIGINAL payload type, before any rewrite (EXT)
+               tgt |-> IF pt \in VideoPts THEN 2 ELSE 1,
                exp |-> [ssrc |-> s0.outSsrc, pt |-> outPt, seq |-> outSeq, ts |-> outTs,
                         first |-> first, cont |-> cls,
                         mid |-> IF ri # 0 /\ ~mode.strip THEN tbl[ri].mid ELSE 0,
@@ -121,17 +125,29 @@ Forward(src, pt, ts) ==
   /\ prev' = [prev EXCEPT ![src] = [on |-> TRUE, ts |-> ts, outTs |-> outTs, outSeq |-> outSeq]]
   /\ seen' = seen \cup {<<src, ri, s0.outSsrc, outPt>>}
   /\ hist' = Append(hist, rec)
-  /\ last' = [src |-> src, rule |-> ri, first |-> first, cont |-> cls, outSsrc |-> s0.outSsrc, outPt |-> outPt,
+  /\ last' = [kind |-> "fwd", src |-> src, rule |-> ri, first |-> first, cont |-> cls, outSsrc |-> s0.outSsrc, outPt |-> outPt,
               outSeq |-> outSeq, outTs |-> outTs,
               dPair |-> IF prev[src].on THEN Sub32(ts, prev[src].ts) ELSE 0]
   /\ UNCHANGED <<tbl, mode>>
 
+\* clear_bridge_rewrite() followed by installing the same bridge again: every source starts afresh
+\* (beyond the statement, which speaks about one bridge: EXT)
+Reinstall ==
+  /\ Reinstalls /\ Len(hist) > 0 /\ hist[Len(hist)].op # "reinstall"
+  /\ st' = [s \in Sources |-> NoSt]
+  /\ prev' = [s \in Sources |-> NoPrev]
+  /\ seen' = {}
+  /\ hist' = Append(hist, [op |-> "reinstall"])
+  /\ last' = [last EXCEPT !.kind = "reinstall"]
+  /\ UNCHANGED <<tbl, mode>>
+
 Next ==
   /\ Len(hist) < MaxLen
-  /\ \E src \in Sources, pt \in PtAlpha :
-       IF prev[src].on
-       THEN \E dl \in Deltas : Forward(src, pt, Add32(prev[src].ts, dl))
-       ELSE \E t0 \in StartTs : Forward(src, pt, t0)
+  /\ \/ \E src \in Sources, pt \in PtAlpha :
+          IF prev[src].on
+          THEN \E dl \in Deltas : Forward(src, pt, Add32(prev[src].ts, dl))
+          ELSE \E t0 \in StartTs : Forward(src, pt, t0)
+     \/ Reinstall
 
 Spec == Init /\ [][Next]_vars
 
@@ -147,7 +163,8 @@ StableMap ==
 \* the output SSRC / PT are the ones the matched rule names (SSRC: the rule matched by the source's
 \* first packet - the mapping of a source stream is chosen once)
 RuleApplied ==
-  [][ LET ri == last'.rule IN
+  [][ last'.kind = "fwd" =>
+      LET ri == last'.rule IN
       /\ (ri # 0 /\ tbl[ri].pt >= 0) => last'.outPt = tbl[ri].pt
       /\ (ri = 0 \/ tbl[ri].pt < 0) => last'.outPt = hist'[Len(hist')].pt
       /\ (last'.first /\ ri # 0 /\ tbl[ri].fixOn) => last'.outSsrc = tbl[ri].fix
@@ -155,12 +172,12 @@ RuleApplied ==
 
 \* consecutive output sequence numbers in arrival order, per source
 SeqConsecutive ==
-  [][ (~last'.first) => last'.outSeq = (prev[last'.src].outSeq + 1) % 65536 ]_vars
+  [][ (last'.kind = "fwd" /\ ~last'.first) => last'.outSeq = (prev[last'.src].outSeq + 1) % 65536 ]_vars
 
 \* source timestamp differences are preserved between consecutive packets of a source unless the step
 \* is a discontinuity (backward, or forward by more than 900000)
 TsPreserve ==
-  [][ (last'.cont = "cont") => last'.outTs = Add32(prev[last'.src].outTs, last'.dPair) ]_vars
+  [][ (last'.kind = "fwd" /\ last'.cont = "cont") => last'.outTs = Add32(prev[last'.src].outTs, last'.dPair) ]_vars
 
 \* (Not a rule: "a backward step keeps the offset". The code measures steps against the last FORWARD
 \* source timestamp, not against the previous packet, so after a step of exactly 2^31 a pairwise-backward
@@ -169,7 +186,7 @@ TsPreserve ==
 
 \* independently for every concurrent source stream
 Independent ==
-  [][ \A s \in Sources : s # last'.src => (st'[s] = st[s] /\ prev'[s] = prev[s]) ]_vars
+  [][ last'.kind = "fwd" => \A s \in Sources : s # last'.src => (st'[s] = st[s] /\ prev'[s] = prev[s]) ]_vars
 
 TypeOK == \A s \in Sources : st[s].nextSeq \in 0..65535
 =============================================================================
